@@ -186,7 +186,7 @@ WsInit == w = W0 /\ c \in [proto : {"gws", "tws"}, initfn : BOOLEAN, tmo : {FALS
 WsNext ==
   \/ \E m \in MsgClasses, id \in SIds, i \in SInsts, kind \in {"ok", "bad"} :
         /\ Cardinality(Insts(w)) < Cardinality(SInsts) \/ m # "start"
-        /\ CSend_G(w, c, m, id, i) /\ ~w.cend
+        /\ CSend_G(w, c, m, id, i) /\ ~w.cend /\ ~w.doom
         /\ w' = CSend_F(w, c, m, id, i, kind) /\ UNCHANGED c
   \/ \E res \in {"accept", "reject"} : InitFn_G(w, c, res) /\ w' = InitFn_F(w, res) /\ UNCHANGED c
   \/ CloseFn_G(w, c) /\ Doomed(w, c) /\ w' = CloseFn_F(w) /\ UNCHANGED c
